@@ -53,6 +53,16 @@ impl<T> MpscReceiver<T> {
         ensures final(self).q() == old(self).q(), recv_post(old(self).q(), old(w), final(w), &r)
     { unimplemented!() }
 }
+#[verifier::external_body] pub struct TryRecvError { x: u8 }
+impl<T> MpscReceiver<T> {
+    // Receiver::try_next: the non-waiting poll: Ok(Some(head)) removes the head, Ok(None) closed and empty, Err nothing there right now
+    #[verifier::external_body]
+    pub fn try_next(&mut self, Tracked(w): Tracked<&mut World>) -> (r: Result<Option<T>, TryRecvError>)
+        ensures final(self).q() == old(self).q(),
+            r is Ok ==> recv_post(old(self).q(), old(w), final(w), &Poll::Ready(r->Ok_0)),
+            r is Err ==> recv_post(old(self).q(), old(w), final(w), &Poll::<Option<T>>::Pending)
+    { unimplemented!() }
+}
 #[verifier::external_body] pub struct TaskCx { x: u8 }          // core::task::Context<'_>
 pub enum Poll<T> { Ready(T), Pending }                          // core::task::Poll
 // what one poll of the receiving closure may do: pop the head and hand it out, report the end, or nothing at all
@@ -78,6 +88,7 @@ pub uninterp spec fn fresh_queue(q: int) -> bool;             // marker: q was c
 #[verifier::external_body] #[verifier::accept_recursive_types(T)] pub struct OsSender<T> { p: core::marker::PhantomData<T> }
 #[verifier::external_body] #[verifier::accept_recursive_types(T)] pub struct OsReceiver<T> { p: core::marker::PhantomData<T> }
 pub uninterp spec fn rid<T>(t: &T) -> int;                    // ghost identity of a response value
+pub uninterp spec fn slot_answered(s: int) -> bool;            // whether the slot's sender sent before it was dropped (the receiver yields Ok exactly then)
 pub uninterp spec fn slot_value(s: int) -> int;               // the value sent on slot s (a slot is sent on at most once: the sender is consumed)
 impl<T> OwnView for OsSender<T> { open spec fn own(&self) -> Own { own_none() } }
 impl<T> OsSender<T> {
@@ -95,6 +106,7 @@ impl<T> VFuture for OsReceiver<T> {
         &&& w1.lc == w0.lc && w1.cells =~= w0.cells && w1.last_pid == w0.last_pid && w1.last_slot == w0.last_slot && shared_moved(sh(w0), sh(w1))
         &&& w1.trace == w0.trace.push(Ev::OsRecv { slot: self.slot() })
         &&& (*out is Ok ==> rid(&out->Ok_0) == slot_value(self.slot()))
+        &&& (*out is Ok) == slot_answered(self.slot())
     }
     open spec fn dropped(&self, w0: &World, w1: &World) -> bool { same_world(w0, w1) }
     uninterp spec fn ready_at(&self) -> nat;
